@@ -120,6 +120,7 @@ PROPERTY_RULES: Dict[str, List[Scoped]] = {
     "C10": [
         _r("BASE-EXT-SHARE"), _r("EVENT-SIG"), _r("COSTKEYS"), _r("SIBLING-PAIRING"), _r("READONLY-DECODE"),
         _r("SOLVER-STATELESS", P_SOLVE),
+        _r("CLASS-DOMAIN"), _r("MIRROR"),
     ],
     "C11": [
         _r("DICT-KEYS"), _r("FIELDS-SERIALISED"), _r("TREE-WRITE-ARGS"), _r("ENUM-DISJOINT"), _r("MAPPING-KEYING"),
@@ -381,7 +382,7 @@ PROPERTY_INFO: Dict[str, Dict] = {
         "signature, which is the structural content of 'the models coincide on single-family inputs'.",
         "decided": [
             "base/extended share the engine on every path; extended offers all species nodes, base the LCA species (BASE-EXT-SHARE)",
-            "THL, SPFS and USPFS all price events as the one evaluator does (EVENT-SIG, COSTKEYS); SPFS and USPFS use the same pairings (SIBLING-PAIRING)",
+            "THL, SPFS and USPFS all price events as the one evaluator does (EVENT-SIG, COSTKEYS); SPFS and USPFS use the same pairings (SIBLING-PAIRING); the three offer the same species ranges per event kind, in both orientations (CLASS-DOMAIN, MIRROR)",
             "the engine is a function of its arguments (READONLY-DECODE, SOLVER-STATELESS)",
         ],
         "not_decided": ["unordered <= ordered, DTL <= LCA and the single-family equalities as numerical facts"],
